@@ -130,6 +130,16 @@ def ipEqual (a b : Bytes) : Bool :=
 /-- `bytes.HasPrefix(s, p)` -/
 def hasPrefix (s p : Bytes) : Bool := p.isPrefixOf s
 
+/-- `net.Interface`: the fields the translated code reads. -/
+structure NetInterface where
+  Index : Int
+  MTU : Int
+  Name : Bytes
+  HardwareAddr : Bytes
+deriving DecidableEq, Repr
+
+def NetInterface.zero : NetInterface := { Index := 0, MTU := 0, Name := [], HardwareAddr := [] }
+
 /-- `crc32.ChecksumIEEE` (the bitwise model of Model/Dhcp.lean; the standard library is trusted). -/
 def crc32IEEE (b : Bytes) : UInt32 := UInt32.ofNat (PsaDhcp.crc32 b)
 
